@@ -333,7 +333,7 @@ theorem ofNat_pred (n : Nat) (h : 0 < n) : UInt64.ofNat n - 1 = UInt64.ofNat (n 
 
 theorem fill_run (x b : String) (lim hi : Nat) (hx1 : x ≠ "end") (hx2 : x ≠ "skip") (hx3 : x ≠ b ++ ".lim")
     (hb1 : "skip" ≠ b ++ ".lim") :
-    ∀ (n j : Nat) (tape : Array UInt64) (e : Env) (fuel : Nat), hi - j ≤ n → n + 1 ≤ fuel →
+    ∀ (n j : Nat) (tape : Array UInt64) (e : Env) (fuel : Nat), min hi lim - j < n → n ≤ fuel →
       e.get x = some (.int j) → e.get "end" = some (.int hi) → e.get "skip" = some (.u64 (UInt64.ofNat (hi - j))) →
       e.get (b ++ ".lim") = some (.int lim) →
       match Iter.nopFillV lim tape j hi with
@@ -345,14 +345,7 @@ theorem fill_run (x b : String) (lim hi : Nat) (hx1 : x ≠ "end") (hx2 : x ≠ 
   have hx2' : ¬ "skip" = x := fun h => hx2 h.symm
   intro n
   induction n with
-  | zero =>
-    intro j tape e fuel h1 h2 gx ge gs gl
-    obtain ⟨f, rfl⟩ : ∃ f, fuel = f + 1 := ⟨fuel - 1, by omega⟩
-    have hj : ¬ j < hi := by omega
-    have hj' : ¬ ((j : Int) < hi) := by omega
-    rw [nopFillV_ge _ _ _ _ hj]
-    refine ⟨e, ?_, fun _ _ _ => rfl⟩
-    simp [fillLoop, gx, ge, hj']
+  | zero => intro j tape e fuel h1; omega
   | succ n ih =>
     intro j tape e fuel h1 h2 gx ge gs gl
     obtain ⟨f, rfl⟩ : ∃ f, fuel = f + 1 := ⟨fuel - 1, by omega⟩
@@ -391,6 +384,107 @@ theorem fill_run (x b : String) (lim hi : Nat) (hx1 : x ≠ "end") (hx2 : x ≠ 
       rw [nopFillV_ge _ _ _ _ hj]
       refine ⟨e, ?_, fun _ _ _ => rfl⟩
       simp [fillLoop, gx, ge, hj']
+
+/-- `skip := uint64(end - startO); for x := startO; x < end; x++ { … }` -/
+def fillTail (x b : String) : List Stmt :=
+  [.assign "skip" (.conv .u64 (.bin .sub (.v "end") (.v "startO"))), fillLoop x b [.assign x (.v "startO")]]
+
+theorem fillTail_run (x b : String) (lim lo hi : Nat) (hx1 : x ≠ "end") (hx2 : x ≠ "skip") (hx3 : x ≠ b ++ ".lim")
+    (hb1 : "skip" ≠ b ++ ".lim") (tape : Array UInt64) (e : Env) (fuel : Nat) (hlo : lo ≤ hi)
+    (hf : min hi lim - lo + 3 ≤ fuel) (gs : e.get "startO" = some (.int lo)) (ge : e.get "end" = some (.int hi))
+    (gl : e.get (b ++ ".lim") = some (.int lim)) :
+    match Iter.nopFillV lim tape lo hi with
+    | .ok t' => ∃ e', exec goFuns fuel (fillTail x b) ⟨e, tape⟩ = .normal ⟨e', t'⟩ ∧
+        ∀ k, k ≠ x → k ≠ "skip" → e'.get k = e.get k
+    | .panic => exec goFuns fuel (fillTail x b) ⟨e, tape⟩ = .panic
+    | _ => False := by
+  have hx1' : ¬ "end" = x := fun h => hx1 h.symm
+  have hx2' : ¬ "skip" = x := fun h => hx2 h.symm
+  obtain ⟨f, rfl⟩ : ∃ f, fuel = f + 2 := ⟨fuel - 2, by omega⟩
+  have hsub : UInt64.ofInt ((hi : Int) - lo) = UInt64.ofNat (hi - lo) := by
+    rw [← ofInt_natCast]; congr 1; omega
+  have hrun := fill_run x b lim hi hx1 hx2 hx3 hb1 (min hi lim - lo + 1) lo tape
+    ((e.set "skip" (.u64 (UInt64.ofNat (hi - lo)))).set x (.int lo)) (f + 1) (by omega) (by omega)
+    (by simp) (by simp [hx1, hx1', ge]) (by simp [hx2, hx2']) (by simp [hx3, hb1, gl])
+  have h1 : exec1 goFuns (f + 2) (.assign "skip" (.conv .u64 (.bin .sub (.v "end") (.v "startO")))) ⟨e, tape⟩ =
+      .normal ⟨e.set "skip" (.u64 (UInt64.ofNat (hi - lo))), tape⟩ := by
+    simp [gs, ge, hsub]
+  have h2 : exec goFuns (f + 1) [.assign x (.v "startO")] ⟨e.set "skip" (.u64 (UInt64.ofNat (hi - lo))), tape⟩ =
+      .normal ⟨(e.set "skip" (.u64 (UInt64.ofNat (hi - lo)))).set x (.int lo), tape⟩ := by
+    simp [gs]
+  have hstep : exec goFuns (f + 2) (fillTail x b) ⟨e, tape⟩ =
+      exec1 goFuns (f + 1) (fillLoop x b []) ⟨(e.set "skip" (.u64 (UInt64.ofNat (hi - lo)))).set x (.int lo), tape⟩ := by
+    simp only [fillTail]
+    rw [exec, h1]
+    simp only []
+    rw [exec]
+    simp only [fillLoop]
+    rw [exec1, h2]
+    simp only []
+    generalize exec1 goFuns (f + 1) _ _ = out
+    cases out <;> simp only [exec]
+  rw [hstep]
+  revert hrun
+  cases Iter.nopFillV lim tape lo hi with
+  | ok t' =>
+    rintro ⟨e', he, hfr⟩
+    refine ⟨e', he, ?_⟩
+    intro k k1 k2
+    rw [hfr k k1 k2, Env.get_set_ne _ _ (Ne.symm k1), Env.get_set_ne _ _ (Ne.symm k2)]
+  | panic => exact fun h => h
+  | error _ => exact fun h => h
+  | diverge => exact fun h => h
+
+/-! ## the model's fill against the view-checked one -/
+
+theorem nopFill_lt (tape : Array UInt64) (lo hi : Nat) (h : lo < hi) :
+    Iter.nopFill tape lo hi =
+      (wr tape lo (mkWord tagNop (UInt64.ofNat (hi - lo))) >>= fun t => Iter.nopFill t (lo + 1) hi) := by
+  rw [Iter.nopFill]; simp [h]
+
+theorem nopFill_ge (tape : Array UInt64) (lo hi : Nat) (h : ¬ lo < hi) : Iter.nopFill tape lo hi = .ok tape := by
+  rw [Iter.nopFill]; simp [h]
+
+/-- a fill that ends inside the view: the check against the view and the check against the array agree -/
+theorem nopFillV_eq_nopFill (lim : Nat) : ∀ (n lo hi : Nat) (tape : Array UInt64), hi - lo ≤ n → hi ≤ lim →
+    Iter.nopFillV lim tape lo hi = Iter.nopFill tape lo hi := by
+  intro n
+  induction n with
+  | zero =>
+    intro lo hi tape h1 h2
+    rw [nopFillV_ge _ _ _ _ (by omega), nopFill_ge _ _ _ (by omega)]
+  | succ n ih =>
+    intro lo hi tape h1 h2
+    by_cases h : lo < hi
+    · rw [nopFillV_lt _ _ _ _ h, nopFill_lt _ _ _ h]
+      have hv : lo < lim := by omega
+      simp only [Iter.wrV, hv, if_true]
+      cases hw : wr tape lo (mkWord tagNop (UInt64.ofNat (hi - lo))) with
+      | ok t => simp only [Res.bind_ok]; exact ih _ _ _ (by omega) h2
+      | panic => rfl
+      | error _ => rfl
+      | diverge => rfl
+    · rw [nopFillV_ge _ _ _ _ h, nopFill_ge _ _ _ h]
+
+theorem nopFill_size : ∀ (n lo hi : Nat) (tape t' : Array UInt64), hi - lo ≤ n →
+    Iter.nopFill tape lo hi = .ok t' → t'.size = tape.size := by
+  intro n
+  induction n with
+  | zero =>
+    intro lo hi tape t' h1 h
+    rw [nopFill_ge _ _ _ (by omega)] at h
+    cases h; rfl
+  | succ n ih =>
+    intro lo hi tape t' h1 h
+    by_cases hlt : lo < hi
+    · rw [nopFill_lt _ _ _ hlt] at h
+      by_cases hs : lo < tape.size
+      · rw [wr_ok _ _ _ hs] at h
+        simp only [Res.bind_ok] at h
+        rw [ih _ _ _ _ (by omega) h]; simp
+      · rw [wr_panic _ _ _ (by omega)] at h; cases h
+    · rw [nopFill_ge _ _ _ hlt] at h
+      cases h; rfl
 
 /-! ## the model's `advance`: every live step moves the cursor forward -/
 
